@@ -8,6 +8,7 @@ import (
 	"runtime"
 	"runtime/debug"
 	"runtime/pprof"
+	"sort"
 	"strconv"
 	"strings"
 	"time"
@@ -90,6 +91,28 @@ func main() {
 		fmt.Println(string(out))
 	case "check":
 		os.Exit(cmdCheck(os.Args[2:]))
+	case "bounds":
+		defs := checkDefs()
+		ids := []string{}
+		for k := range defs {
+			ids = append(ids, k)
+		}
+		sort.Strings(ids)
+		fmt.Println("| id | jobs quick / thorough | harnesses | bounds (quick; thorough in parentheses) | outside the claim |")
+		fmt.Println("|---|---|---|---|---|")
+		for _, k := range ids {
+			d := defs[k]
+			hs := map[string]bool{}
+			for _, j := range d.Thorough {
+				hs[j.Harness] = true
+			}
+			var hl []string
+			for h := range hs {
+				hl = append(hl, "`"+h+"`")
+			}
+			sort.Strings(hl)
+			fmt.Printf("| %s | %d / %d | %s | %s | %s |\n", k, len(d.Quick), len(d.Thorough), strings.Join(hl, " "), d.Bounds, d.Outside)
+		}
 	case "replay":
 		os.Exit(cmdReplay(os.Args[2:]))
 	default:
